@@ -273,6 +273,41 @@ class Mon:
                                   {'law': law, 'a': a, 'b': b, 'c': c})
 
 
+def huge_ints(mon, rec):
+    """integers beyond CPython's int->str digit limit (4300 digits): arithmetic and ordering stay exact, nothing on the
+    way (resolution, error messages, tracing) needs their decimal spelling"""
+    a, b, c = 10 ** 5000 + 7, 10 ** 4500 - 3, 3
+
+    def short(v):
+        if isinstance(v, tuple):
+            return tuple(short(x) for x in v)
+        if isinstance(v, int) and not isinstance(v, bool) and abs(v) > 10 ** 50:
+            return '<int of %d bits, mod 9973 = %d>' % (v.bit_length(), v % 9973)
+        return v
+    cases = [('$a * $b', a * b), ('$a + $b', a + b), ('$a - $b', a - b), ('- $a', -a), ('+ $a', a), ('$a / $c', a // c), ('$a mod $c', a % c),
+             ('$a / $b', a // b), ('$a mod $b', a % b), ('$a < $b', False), ('$a > $b', True), ('$a <= $a', True), ('$a >= $b', True),
+             ('$a = $a', True), ('$a != $b', True), ('$a = $b', False), ('$a * $c + 1', a * c + 1), ('($a / $b) * $b + ($a mod $b) = $a', True),
+             ('$a * $a > $b * $b', True), ('$c - $a', c - a), ('$a in [$a]', True)]
+    for text, want in cases:
+        got = mon.run_in(None, text, a=a, b=b, c=c)
+        rec.count('checked.binary')
+        rec.count('checked.huge_int_cases')
+        rec.case(('huge', text))
+        ok = got[0] == 'value' and type(got[1]) is type(want) and got[1] == want
+        if not ok:
+            rec.violation('scalar-operator-differs-from-model:huge-int:%s' % text.replace(' ', ''),
+                          '%s with a = 10**5000 + 7, b = 10**4500 - 3, c = 3 gives %r, exact integer arithmetic gives %r' % (
+                              text, short(got), short(want)), {'op': text, 'a': 'huge', 'b': 'huge', 'form': 'huge', 'arity': 0})
+    # unrelated operand kinds still give the resolution error, whatever the size of the number
+    for text in ("$a + 'x'", "$a < 'x'", '$a * null', 'not $a + true'):
+        got = mon.run_in(None, text, a=a, b=b, c=c)
+        rec.count('checked.huge_int_cases')
+        rec.case(('huge', text))
+        if got != ('error', ms.NOMATCH):
+            rec.violation('scalar-operator-differs-from-model:huge-int:error-class', '%s with a = 10**5000 + 7 gives %r, expected the '
+                          "'no matching function' error" % (text, short(got)), {'op': text, 'a': 'huge', 'b': 'huge', 'form': 'huge', 'arity': 0})
+
+
 def plan(tier, seed):
     vals = corpus(tier)
     n = len(vals)
@@ -306,6 +341,7 @@ def run_shard(spec, rec):
                 if idx % 400 == 0:
                     rec.sample({'expr': '$a <= $b', 'a': a, 'b': b, 'outcome': mon.run('$a <= $b', a=a, b=b)})
         elif spec['kind'] == 'unary':
+            huge_ints(mon, rec)
             for a in vals:
                 for op in UN_OPS:
                     mon.unary(op, a)
